@@ -153,32 +153,36 @@ theorem C11_source_skeletons :
 
 /-! ### byte ranges of the mount's lock requests -/
 
-open LiteFSVerif.LockRange in
-/-- a lock type is named by a byte range iff its byte lies in the range — for every range -/
-theorem C11_lock_range_exact (start end_ : Nat) (name : String) :
-    (name ∈ parseDatabaseLockRange start end_ ↔ ∃ b, (name, b) ∈ dbTypes ∧ start ≤ b ∧ b ≤ end_) ∧
-    (name ∈ parseSHMLockRange start end_ ↔ ∃ b, (name, b) ∈ shmTypes ∧ start ≤ b ∧ b ≤ end_) := by
-  constructor <;>
-  · simp only [parseDatabaseLockRange, parseSHMLockRange, parse, List.mem_map, List.mem_filter,
-      Bool.and_eq_true, decide_eq_true_eq]
-    constructor
-    · rintro ⟨⟨n, b⟩, ⟨hm, h1, h2⟩, rfl⟩; exact ⟨b, hm, h1, h2⟩
-    · rintro ⟨b, hm, h1, h2⟩; exact ⟨(name, b), ⟨hm, h1, h2⟩, rfl⟩
+open LiteFSVerif.LockRange LiteFSVerif.Gen.Facts in
+/-- `ParseDatabaseLockRange` / `ParseSHMLockRange` as regenerated from litefs.go: a lock type is in
+    the answer iff it is one of the file's lock types and its byte lies in the requested range —
+    for every range.  (The tables' rows each test the byte of the type they append, and the types
+    are exactly the file's; a row that tests another byte breaks this theorem.) -/
+theorem C11_lock_range_exact (start end_ t : Nat) :
+    (t ∈ parseDatabaseLockRange start end_ ↔ t ∈ dbTypes ∧ start ≤ t ∧ t ≤ end_) ∧
+    (t ∈ parseSHMLockRange start end_ ↔ t ∈ shmTypes ∧ start ≤ t ∧ t ≤ end_) := by
+  have hd : rowsExact dbLockRangeTable = true := by decide
+  have hs : rowsExact shmLockRangeTable = true := by decide
+  have ed : dbLockRangeTable.map (·.2.2) = dbTypes := by decide
+  have es : shmLockRangeTable.map (·.2.2) = shmTypes := by decide
+  constructor
+  · rw [← ed]; exact parse_exact _ hd start end_ t
+  · rw [← es]; exact parse_exact _ hs start end_ t
 
 open LiteFSVerif.LockRange LiteFSVerif.Gen.Facts in
 /-- the ranges SQLite locks name exactly the intended lock types: the PENDING byte, the RESERVED
     byte, the SHARED range (510 bytes), the whole lock area (unlock at close), each WAL lock
     byte; no range of the database file ever names LiteFS's own HALT byte, and all bytes are
-    distinct (constants regenerated from litefs.go) -/
+    distinct (constants and tables regenerated from litefs.go) -/
 theorem C11_lock_ranges_of_sqlite :
-    parseDatabaseLockRange PENDING_BYTE PENDING_BYTE = ["pending"] ∧
-    parseDatabaseLockRange RESERVED_BYTE RESERVED_BYTE = ["reserved"] ∧
-    parseDatabaseLockRange SHARED_FIRST (SHARED_FIRST + SHARED_SIZE - 1) = ["shared"] ∧
-    parseDatabaseLockRange PENDING_BYTE (SHARED_FIRST + SHARED_SIZE - 1) = ["pending", "reserved", "shared"] ∧
+    parseDatabaseLockRange PENDING_BYTE PENDING_BYTE = [LockTypePending] ∧
+    parseDatabaseLockRange RESERVED_BYTE RESERVED_BYTE = [LockTypeReserved] ∧
+    parseDatabaseLockRange SHARED_FIRST (SHARED_FIRST + SHARED_SIZE - 1) = [LockTypeShared] ∧
+    parseDatabaseLockRange PENDING_BYTE (SHARED_FIRST + SHARED_SIZE - 1) = dbTypes ∧
     parseDatabaseLockRange 0 LockTypeHalt = [] ∧
-    (∀ i, i < 9 → parseSHMLockRange (WAL_WRITE_LOCK + i) (WAL_WRITE_LOCK + i) = [((shmTypes.map (·.1))[i]?).getD ""]) ∧
-    parseSHMLockRange WAL_READ_LOCK0 WAL_READ_LOCK4 = ["read0", "read1", "read2", "read3", "read4"] ∧
-    ((dbTypes ++ shmTypes).map (·.2) ++ [LockTypeHalt]).Nodup := by
+    (∀ i, i < 9 → parseSHMLockRange (WAL_WRITE_LOCK + i) (WAL_WRITE_LOCK + i) = [(shmTypes[i]?).getD 0]) ∧
+    parseSHMLockRange WAL_READ_LOCK0 WAL_READ_LOCK4 = [LockTypeRead0, LockTypeRead1, LockTypeRead2, LockTypeRead3, LockTypeRead4] ∧
+    (dbTypes ++ shmTypes ++ [LockTypeHalt]).Nodup := by
   refine ⟨by decide, by decide, by decide, by decide, by decide, ?_, by decide, by decide⟩
   intro i hi
   have : i = 0 ∨ i = 1 ∨ i = 2 ∨ i = 3 ∨ i = 4 ∨ i = 5 ∨ i = 6 ∨ i = 7 ∨ i = 8 := by omega
